@@ -357,7 +357,7 @@ class Run:
                 if w.instances[victim].alive:
                     w.crash_instance(victim)
                     self.closing['crashed'].append(victim)
-        for _ in range(60):
+        for _ in range(self.knobs.get('closing_ticks', 60)):
             w.run_for(TICK)
             if not [i for i in w.live() if i.nick in comp]:
                 break
